@@ -226,7 +226,7 @@ def build(case):
                          data=np.array([p for _, p in case['nodes']], dtype=float), silent=True)
     el = {t: FEMAttribute(t, ids=np.array([e for e, _ in b]), data=np.array([c for _, c in b]), silent=True)
           for t, b in case['blocks'].items()}
-    fd = FEMData(nodes=nodes, elements=FEMElementalAttribute('ELEMENT', el))
+    fd = FEMData(nodes=nodes, elements=FEMElementalAttribute('ELEMENT', G.insertion_order(el)))
 
     def attach(attrs, v, make):
         """store the variable under the KEY v['name']; its FEMAttribute.name is v['attr'] (default: the key)"""
